@@ -134,6 +134,7 @@ class World:
         self.overlays = [m.overlay_classes[p](self.rc) for p in range(len(m.prefixes))]
         self.sd_requested = False
         self.sd_task = None
+        self.waits: list = []
         self.ref = RefCaches([(s.ident, s.delay, s.future) for s in m.slots])
 
     # --- helpers ---------------------------------------------------------------------------------
@@ -225,6 +226,18 @@ class World:
             refused = True
         self.log.append(("query", ident, self.loop.time(), has, None if g is None else self.slot_of(g), refused))
 
+    def do_wait(self, ident: int, timeout) -> None:  # noqa: ANN001
+        """Somebody wants to be told when this identity gets registered.  Only observes: never claims."""
+        prefix_i, number = self.m.idents[ident]
+        try:
+            f = self.rc.wait_for(self.m.prefixes[prefix_i], number, timeout)
+            self.waits.append(f)  # the caller holds on to it
+            res = "pending" if not f.done() else ("cancelled" if f.cancelled() else
+                                                  ("found" if f.result() is not None else "none"))
+        except Exception as e:  # noqa: BLE001
+            res = f"exc:{type(e).__name__}:{e}"
+        self.log.append(("wait", ident, self.loop.time(), res))
+
     def do_clear(self) -> None:
         self.rc.clear()
         self.log.append(("clear", self.loop.time()))
@@ -249,6 +262,8 @@ class World:
             self.do_pop(ev[1], "class")
         elif kind == "resp":
             self.do_pop(ev[1], "handler")
+        elif kind == "wait":
+            self.do_wait(ev[1], ev[2])
         elif kind == "clear":
             self.do_clear()
         elif kind == "shutdown":
@@ -285,11 +300,12 @@ class World:
 
 class Model(core.BfsModel):
     def __init__(self, name: str, slots: list[SlotSpec], seed: int, idents: list | None = None,
-                 io_pop: bool = True, pt_values: tuple = (0.0,), handler: bool = False) -> None:
+                 io_pop: bool = True, pt_values: tuple = (0.0,), handler: bool = False, waits: tuple = ()) -> None:
         """
         idents: (prefix index, number offset) per identity (default: one prefix, distinct numbers).
         handler: also pop through pop(cls, number) and through a retrieve_cache-decorated message handler, the latter
                  with a matching and with a never-registered ("ghost") identifier.
+        waits: one wait_for(prefix, number, timeout) event per identity and per listed timeout (None = no timeout).
         """
         self.name, self.slots, self.seed = name, slots, seed
         self.base = 7 + 1000 * (seed % 60)
@@ -309,6 +325,7 @@ class Model(core.BfsModel):
         self.fut_values = [{None: None, "default": None, "value": "timeout-value",
                             "exception": RuntimeError("request timed out")}[s.future] for s in slots]
         self.io_pop, self.pt_values, self.handler = io_pop, tuple(pt_values), handler
+        self.waits = tuple(waits)
         S, I = range(len(slots)), range(n_ident)  # noqa: E741
         al: list = [("iter",), ("tick",)]
         al += [("add", s) for s in S]
@@ -319,20 +336,26 @@ class Model(core.BfsModel):
         if handler:
             al += [("pop_cls", i) for i in I]
             al += [("resp", i) for i in [*I, self.ghost]]
+        al += [("wait", i, t) for i in I for t in self.waits]
         al += [("clear",), ("shutdown",), ("io", ("shutdown",))]
         self.alphabet = al
+        # numbers that must NOT be the same identity as a registered one although they agree with it modulo 2**16 /
+        # 2**32 (wire fields are 16 bit, circuit ids 32 bit: a table key that folds the number makes them collide)
+        own = {(p, n) for p, n in self.idents}
+        self.aliases = [(p, n + d) for p, n in self.idents[:n_ident] for d in (65536, -65536, 2 ** 32, -2 ** 32)
+                        if (p, n + d) not in own]
 
     def params(self) -> dict:
         return {"name": self.name, "seed": self.seed, "slots": [s.params() for s in self.slots],
                 "identities": [list(x) for x in self.ident_spec], "io_pop": self.io_pop,
-                "passthrough_timeouts": list(self.pt_values), "handler": self.handler,
+                "passthrough_timeouts": list(self.pt_values), "handler": self.handler, "waits": list(self.waits),
                 "identity_names": [[self.prefixes[p], n] for p, n in self.idents]}
 
     @classmethod
     def from_params(cls, p: dict) -> "Model":
         slots = [SlotSpec(x["ident"], x["delay"], x["future"], x.get("pops"), x.get("script")) for x in p["slots"]]
         return cls(p["name"], slots, p["seed"], p["identities"], p["io_pop"], tuple(p["passthrough_timeouts"]),
-                   p["handler"])
+                   p["handler"], tuple(p.get("waits", ())))
 
     # --- BfsModel ----------------------------------------------------------------------------------
     def initial(self) -> World:
@@ -367,6 +390,7 @@ class Model(core.BfsModel):
             w.created.clear()
             w.objs = []
             w.futs = []
+            w.waits = []
             w.overlays = []
 
     def enabled(self, w: World):  # noqa: ANN201
@@ -516,10 +540,11 @@ class Model(core.BfsModel):
 
         impl = (
             tuple((k, w.slot_of(v)) for k, v in rc._identifiers.items()),
-            tuple((w.slot_of(k) if isinstance(k, NumberCache) else str(k), tl(t), t.done())
+            # anonymous names end in TaskManager's running counter, which only has to make them unique
+            tuple((w.slot_of(k) if isinstance(k, NumberCache) else str(k).rstrip("0123456789"), tl(t), t.done())
                   for k, t in list(rc._pending_tasks.items())),
             rc._shutdown, rc._timeout_override, None if rc._timeout_filters is None else len(list(rc._timeout_filters)),
-            tuple(sorted(rc._waiters)), rc.lock.locked(), len(rc._shutdown_tasks),
+            tuple(sorted((k, fstate(f)) for k, f in rc._waiters.items())), rc.lock.locked(), len(rc._shutdown_tasks),
         )
         futs = tuple((w.fut_status(i), sum(1 for f, _ in o.managed_futures if not f.done()))
                      for i, o in enumerate(w.objs))
@@ -556,6 +581,20 @@ class Model(core.BfsModel):
             if refused != want and table_ok:
                 v.append((f"ctor-guard|want:{wants}", f"NumberCache({prefix!r},{number}) "
                           f"{'refused' if refused else 'accepted'} while the identity is {wants} [{tag}]"))
+        # identities are (prefix, number) pairs with the number taken literally: a number that merely agrees with an
+        # outstanding one modulo 2**16 / 2**32 names a different request, of which there is none
+        for p_i, number in self.aliases:
+            prefix, cls = self.prefixes[p_i], self.classes[p_i]
+            got = (rc.has(prefix, number), rc.get(prefix, number))
+            try:
+                cls(rc, number, 1.0)
+                refused = False
+            except RuntimeError:
+                refused = True
+            if got != (False, None) or refused:
+                v.append(("identity-alias", f"nothing was ever registered as ({prefix!r},{number}) but has/get = {got}, "
+                          f"constructor {'refused' if refused else 'accepted'} [{tag}]"))
+                break
         # RandomNumberCache never picks an identity that is outstanding (its random() is forced onto ours)
         for p_i, prefix in enumerate(self.prefixes):
             numbers = [n for (pp, n) in self.idents[:self.n_ident] if pp == p_i]
@@ -685,25 +724,33 @@ def configs(ctx: core.Ctx) -> list[tuple[Model, int]]:
     selfpop = [SlotSpec(0, 1.0, "value", script=[("query", 0), ("pop", 0), ("query", 0)])]
     retry = [SlotSpec(0, 1.0, "value", script=[("query", 0), ("add", 1), ("query", 0)]), SlotSpec(0, 2.0, "default")]
     popretry = [SlotSpec(0, 1.0, "exception", script=[("pop", 0), ("add", 1), ("query", 0)]), SlotSpec(0, 2.0, "value")]
+    # distinct identities whose numbers agree modulo 2**16 (popper) / 2**16 and 2**32 (three)
+    wide2 = [(0, 0), (0, 65536)]
+    wide3 = [(0, 0), (0, 2 ** 32)]
+    waiter = [SlotSpec(0, 1.0, "value")]
+    waiter2 = [SlotSpec(0, 1.0, "exception"), SlotSpec(0, 2.0, "default")]
     if ctx.thorough:
         return [
             (Model("one", one, s, pt_values=(0.0, 0.5), handler=True), 12),
-            (Model("popper", popper, s), 8),
+            (Model("popper", popper, s, wide2), 8),
             (Model("twins", twins, s), 8),
-            (Model("three", three, s, io_pop=False), 7),
+            (Model("three", three, s, wide3, io_pop=False), 7),
             (Model("four", four, s, four_ids, io_pop=False), 6),
             (Model("selfpop", selfpop, s), 10),
             (Model("retry", retry, s), 7),
             (Model("popretry", popretry, s), 7),
+            (Model("waiter", waiter, s, waits=(None, 1.0)), 9),
+            (Model("waiter-twins", waiter2, s, io_pop=False, waits=(None,)), 7),
         ]
     return [
         (Model("one", one, s, pt_values=(0.0, 0.5), handler=True), 8),
-        (Model("popper", popper, s), 5),
+        (Model("popper", popper, s, wide2), 5),
         (Model("twins", twins, s), 5),
         (Model("four", four, s, four_ids, io_pop=False), 4),
         (Model("selfpop", selfpop, s), 6),
         (Model("retry", retry, s), 4),
         (Model("popretry", popretry, s), 4),
+        (Model("waiter", waiter, s, waits=(None, 1.0)), 6),
     ]
 
 
@@ -752,7 +799,8 @@ ASSUMPTIONS = [
     "the same identity (re-adding the very object whose timeout task is still running is not explored); only the "
     "first object of such a pair retries, so every retry chain ends",
     "cache objects are re-added as the same object (the API allows it; the library itself always builds a new one)",
-    "wait_for()/waiters, class filters of passthrough() and timeouts longer than 3 s are not explored",
+    "wait_for() is explored as an observer only (worlds waiter*): what the waiter's future gets is not checked, the "
+    "statement is silent about it; class filters of passthrough() and timeouts longer than 3 s are not explored",
     "the harness keeps strong references to the timeout tasks it labels (TaskManager only keeps weak ones); a pending "
     "task is always strongly referenced by the loop's timer anyway",
 ]
